@@ -1157,27 +1157,403 @@ Proof.
   (* the parent is active: it becomes the current run *)
   assert (Hpi_lt : (pi < c)%nat) by (eapply Hwf; [exact Hzc|exact Epar]).
   assert (Hmid : forall l2, l_cur l2 = Some pi -> l_exit l2 = None -> mid_inv x1 l2 pi None).
-  { intros l2 Hc2 He2. constructor; auto.
+  { intros l2 Hc2 He2. constructor.
     - constructor; auto.
+    - exact Hst1.
+    - exact Hnw1.
+    - exact Hc2.
     - unfold st_at in Epi. destruct (nth_error (shape (session_ x1)) pi) eqn:E; [|discriminate].
       apply nth_error_Some. congruence.
     - intros i z Hi Ha. destruct (Hau1 _ _ Hi Ha) as [->|Hc]; [exfalso; eapply Hcna; eauto|].
       unfold parent_of in Hc. rewrite Hzc1, Hfp in Hc. change (sh_parent (shp_of r)) with (r_parent r) in Hc. rewrite Epar in Hc.
       destruct (achain_inv _ _ _ Hc) as [->|(zp & Hzp & _ & Hup)]; [left; reflexivity|right].
       unfold parent_of. rewrite Hzp. exact Hup.
+    - exact Hpu1.
+    - exact He2.
     - intros C; contradiction. }
-  cbn [negb].
-  destruct (run_status (session_ x1) c) as [[]|] eqn:Ec; cbn [negb];
-    try (eapply mid_fail_cur; [apply Hmid; reflexivity|apply failed_shape_fail_run|reflexivity|simpl; exact Hexit]; simpl; exact Hexit).
-  all: try (destruct (match get_run (session_ x1) pi with
-                 | Some r0 => match get_flow a (r_flow r0) with Some _ => false | None => true end
-                 | None => true end);
-       [eapply mid_fail_cur; [apply Hmid; [reflexivity|simpl; exact Hexit]|apply failed_shape_fail_run|reflexivity|simpl; exact Hexit]|];
-       pose proof (find_resume_exit_shape a x1 pi false []) as Hfre;
-       destruct (find_resume_exit a x1 pi false []) as [x' e op|x'|x'|]; try exact I; try contradiction;
-       [ destruct Hfre as [[Hss Hact]|[-> Hfs]];
-         [ eapply mid_same; [apply (Hmid {| l_cur := Some pi; l_node := l_node l; l_exit := None; l_operand := []; l_step := None; l_steps := 0%Z; l_trigger := false |}); reflexivity|exact Hss|reflexivity|];
-           simpl; intros He; rewrite <- status_at_st_at; apply Hact; exact He
-         | eapply mid_fail_cur; [apply (Hmid {| l_cur := Some pi; l_node := l_node l; l_exit := None; l_operand := []; l_step := None; l_steps := 0%Z; l_trigger := false |}); reflexivity|exact Hfs|reflexivity|reflexivity] ]
-       | subst x'; eapply mid_fail_cur; [apply (Hmid {| l_cur := Some pi; l_node := l_node l; l_exit := None; l_operand := []; l_step := None; l_steps := 0%Z; l_trigger := false |}); reflexivity|apply failed_shape_fail_run|reflexivity|reflexivity] ]).
+  assert (Hfail : forall sr cc l2, l_cur l2 = Some pi -> l_exit l2 = None -> loop_inv (fail_run x1 pi sr cc) l2).
+  { intros sr cc l2 Hc2 He2. eapply mid_fail_cur; [apply (Hmid l2 Hc2 He2)|apply failed_shape_fail_run|exact Hc2|exact He2]. }
+  destruct (negb match run_status (session_ x1) c with Some RFailed => true | _ => false end).
+  - destruct (match get_run (session_ x1) pi with
+              | Some r0 => match get_flow a (r_flow r0) with Some _ => false | None => true end
+              | None => true end).
+    + apply Hfail; [reflexivity|exact Hexit].
+    + pose proof (find_resume_exit_shape a x1 pi false []) as Hfre.
+      destruct (find_resume_exit a x1 pi false []) as [x' e op|x'|x'|]; try exact I; try contradiction.
+      * destruct Hfre as [[Hss Hact]|[-> Hfs]].
+        -- eapply mid_same; [apply (Hmid {| l_cur := Some pi; l_node := l_node l; l_exit := None; l_operand := []; l_step := None; l_steps := 0%Z; l_trigger := false |}); reflexivity|exact Hss|reflexivity|].
+           simpl. intros He. rewrite <- status_at_st_at. apply Hact. exact He.
+        -- eapply mid_fail_cur; [apply (Hmid {| l_cur := Some pi; l_node := l_node l; l_exit := None; l_operand := []; l_step := None; l_steps := 0%Z; l_trigger := false |}); reflexivity|exact Hfs|reflexivity|reflexivity].
+      * subst x'. apply Hfail; reflexivity.
+  - apply Hfail; [reflexivity|exact Hexit].
+Qed.
+
+Lemma nth_error_snoc_lt : forall A (l : list A) z i, (i < length l)%nat -> nth_error (l ++ [z]) i = nth_error l i.
+Proof. intros. apply nth_error_app1; auto. Qed.
+
+Lemma nth_error_snoc_eq : forall A (l : list A) z, nth_error (l ++ [z]) (length l) = Some z.
+Proof. intros. rewrite nth_error_app2 by lia. rewrite Nat.sub_diag. reflexivity. Qed.
+
+Lemma nth_error_snoc_inv : forall A (l : list A) z i y, nth_error (l ++ [z]) i = Some y ->
+  ((i < length l)%nat /\ nth_error l i = Some y) \/ (i = length l /\ y = z).
+Proof.
+  intros A l z i y H. destruct (Nat.lt_ge_cases i (length l)).
+  - left. split; auto. rewrite nth_error_app1 in H; auto.
+  - right. rewrite nth_error_app2 in H by auto. destruct (i - length l)%nat eqn:E; simpl in H.
+    + inversion H. split; auto. lia.
+    + destruct n; discriminate.
+Qed.
+
+Lemma shape_push : forall s fl par,
+  shape (set_pushed (set_runs s (s_runs s ++ [new_run fl par])) None) = shape s ++ [(par, RActive, false)].
+Proof. intros. unfold shape; simpl. rewrite map_app. reflexivity. Qed.
+
+Lemma shape_exit_all : forall s, shape (exit_all_completed s) = map (z_exit RCompleted) (shape s).
+Proof. intros. unfold shape, exit_all_completed; simpl. rewrite !map_map. apply map_ext. reflexivity. Qed.
+
+Lemma pick_dest_inv : forall a x l x1 l1 dest,
+  loop_inv x l -> pick_dest a x l = (x1, l1, dest) ->
+  exists c, mid_inv x1 l1 c dest /\ sess_frame (session_ x) (session_ x1).
+Proof.
+  intros a x l x1 l1 dest [[Hwf Hex] Hst Hnw Hcur] Hpd. unfold pick_dest in Hpd.
+  destruct (s_pushed (session_ x)) as [p|] eqn:Ep.
+  - (* a flow was pushed: a new run *)
+    set (x0 := if p_terminal p then with_session x exit_all_completed else x) in *.
+    assert (H0 : exists sh0, shape (session_ x0) = sh0 /\ length sh0 = length (shape (session_ x)) /\
+                  wf_parents sh0 /\ exited_ok sh0 /\ none_waiting sh0 /\
+                  s_status (session_ x0) = SActive /\ sess_frame (session_ x) (session_ x0) /\
+                  (forall c, l_cur l = Some c ->
+                     forall i z, nth_error sh0 i = Some z -> sh_status z = RActive -> achain sh0 (Some c) i)).
+    { unfold x0. destruct (p_terminal p).
+      - exists (map (z_exit RCompleted) (shape (session_ x))). split; [apply shape_exit_all|].
+        split; [apply map_length|]. split; [apply wf_parents_map; auto|].
+        split; [|split; [|split; [exact Hst|split; [repeat split|]]]].
+        + intros i z Hi. rewrite nth_error_map in Hi. destruct (nth_error (shape (session_ x)) i); inversion Hi; reflexivity.
+        + intros i z Hi. rewrite nth_error_map in Hi. destruct (nth_error (shape (session_ x)) i); inversion Hi; simpl; discriminate.
+        + intros c _ i z Hi Ha. rewrite nth_error_map in Hi. destruct (nth_error (shape (session_ x)) i); inversion Hi; subst; discriminate.
+      - exists (shape (session_ x)). repeat split; auto.
+        intros c Hc i z Hi Ha. unfold cur_ok in Hcur. rewrite Hc in Hcur. destruct Hcur as (Hlt & Hau & Hpu & _).
+        destruct Hpu as [Hca _]; [rewrite Ep; discriminate|].
+        unfold st_at in Hca. destruct (nth_error (shape (session_ x)) c) as [zc|] eqn:Ezc; [|discriminate].
+        inversion Hca as [Hzs].
+        destruct (Hau _ _ Hi Ha) as [->|Hch].
+        + eapply ac_here; eauto.
+        + eapply ac_up; eauto. unfold parent_of in Hch. rewrite Ezc in Hch. exact Hch. }
+    destruct H0 as (sh0 & Hs0 & Hlen0 & Hwf0 & Hex0 & Hnw0 & Hst0 & Hfr0 & Hch0).
+    inversion Hpd; subst x1 l1 dest. clear Hpd.
+    exists (length (s_runs (session_ x0))).
+    assert (Hlen : length (s_runs (session_ x0)) = length sh0) by (rewrite <- Hs0, shape_length; reflexivity).
+    assert (Hpar : forall q, l_cur l = Some q -> (q < length sh0)%nat).
+    { intros q Hq. unfold cur_ok in Hcur. rewrite Hq in Hcur. destruct Hcur as (Hlt & _). lia. }
+    assert (Hexit0 : l_exit l = None).
+    { unfold cur_ok in Hcur. destruct (l_cur l).
+      - destruct Hcur as (_ & _ & Hpu & _). apply Hpu. rewrite Ep. discriminate.
+      - destruct Hcur as (_ & _ & He). exact He. }
+    split; [|destruct Hfr0 as (?&?&?); repeat split; simpl; auto].
+    constructor; unfold with_session; cbn [session_]; try rewrite shape_push; try rewrite Hs0.
+    + constructor; rewrite shape_push, Hs0.
+      * apply wf_parents_app; auto.
+      * apply exited_ok_app; auto.
+    + simpl. exact Hst0.
+    + intros i z Hi. apply nth_error_snoc_inv in Hi. destruct Hi as [[_ Hi]|[_ ->]]; [eapply Hnw0; eauto|simpl; discriminate].
+    + reflexivity.
+    + rewrite app_length, Hlen. simpl. lia.
+    + intros i z Hi Ha. apply nth_error_snoc_inv in Hi. destruct Hi as [[Hlt Hi]|[-> _]]; [right|left; auto].
+      unfold parent_of. rewrite Hlen, nth_error_snoc_eq. simpl.
+      destruct (l_cur l) as [c|] eqn:Ec.
+      * apply achain_app; [exact Hwf0|intros q Hq; inversion Hq; subst; auto|eapply Hch0; eauto].
+      * exfalso. unfold cur_ok in Hcur. rewrite Ec in Hcur. destruct Hcur as (Hnil & _).
+        rewrite Hlen0, shape_length, Hnil in Hlt. simpl in Hlt. lia.
+    + reflexivity.
+    + simpl. exact Hexit0.
+    + intros _. unfold st_at. rewrite Hlen, nth_error_snoc_eq. reflexivity.
+  - (* nothing pushed *)
+    assert (Hc : exists c, l_cur l = Some c /\ (c < length (shape (session_ x)))%nat /\ active_under (shape (session_ x)) c /\
+                           (l_exit l <> None -> st_at (shape (session_ x)) c = Some RActive)).
+    { unfold cur_ok in Hcur. destruct (l_cur l) as [c|].
+      - exists c. destruct Hcur as (A & B & _ & D). auto.
+      - destruct Hcur as (_ & C & _). contradiction. }
+    destruct Hc as (c & Hc & Hlt & Hau & Hea). exists c.
+    destruct (l_exit l) as [e|] eqn:Ee.
+    + assert (Hx1 : session_ x1 = session_ x /\ l_cur l1 = l_cur l /\ l_exit l1 = None).
+      { revert Hpd. repeat dmatch; intros Hpd; inversion Hpd; subst; auto. }
+      destruct Hx1 as (Hx1 & Hl1 & He1). rewrite Hx1. split; [|apply sess_frame_refl].
+      constructor; rewrite ?Hx1.
+      * constructor; auto.
+      * exact Hst.
+      * exact Hnw.
+      * congruence.
+      * exact Hlt.
+      * exact Hau.
+      * exact Ep.
+      * exact He1.
+      * intros _. apply Hea. discriminate.
+    + inversion Hpd; subst. split; [|apply sess_frame_refl].
+      constructor.
+      * constructor; auto.
+      * exact Hst.
+      * exact Hnw.
+      * exact Hc.
+      * exact Hlt.
+      * exact Hau.
+      * exact Ep.
+      * exact Ee.
+      * intros C; contradiction.
+Qed.
+
+(* ---- one iteration keeps the loop invariant --------------------------------------------------------- *)
+
+Lemma cuw_iter_inv : forall a x l, loop_inv x l ->
+  match cuw_iter a x l with
+  | ICont x' l' => loop_inv x' l'
+  | IStop (ROk x') => post_inv (session_ x')
+  | IStop _ => True
+  end.
+Proof.
+  intros a x l H. rewrite cuw_iter_phases.
+  destruct (pick_dest a x l) as [[x1 l1] dest] eqn:Epd.
+  destruct (pick_dest_inv _ _ _ _ _ _ H Epd) as (c & M & _).
+  rewrite (mi_cur _ _ _ _ M). destruct dest as [d|].
+  - apply goto_node_inv; exact M.
+  - apply finish_run_inv; exact M.
+Qed.
+
+(* ---- trigger, flow and type of the session never change ---------------------------------------------- *)
+
+Definition frame (x x' : st) : Prop := sess_frame (session_ x) (session_ x').
+
+Lemma frame_refl : forall x, frame x x. Proof. intros; apply sess_frame_refl. Qed.
+Lemma frame_trans : forall x y z, frame x y -> frame y z -> frame x z.
+Proof. unfold frame; intros; eapply sess_frame_trans; eauto. Qed.
+
+Lemma visit_node_frame : forall a x ri n wt x' v, visit_node a x ri n wt = Done x' v -> frame x x'.
+Proof.
+  intros a x ri n wt x' v. unfold visit_node.
+  destruct (get_run (session_ x) ri) as [r0|]; [|discriminate].
+  match goal with |- context [exec_actions a ?X ri ?P n ?A] =>
+    assert (F2 : frame x X) by (repeat dmatch; repeat split);
+    destruct (exec_actions a X ri P n A) as [x3 b| |] eqn:Ea end; try discriminate.
+  assert (F3 : frame x x3).
+  { eapply frame_trans; [exact F2|]. clear F2. revert Ea.
+    match goal with |- exec_actions a ?X ri ?P n ?A = _ -> _ => generalize X; generalize A end.
+    induction l as [|act acts IH]; intros y; simpl.
+    - intros H; inversion H; apply frame_refl.
+    - destruct (exec_action a y ri (length (r_path r0)) n act) as [y' v'| |] eqn:E; try discriminate.
+      assert (Fy : frame y y').
+      { destruct (exec_action_shape _ _ _ _ _ _ _ _ E) as [[]|[]]; assumption. }
+      destruct (run_status (session_ y') ri) as [[]|]; try (intros H; eapply frame_trans; [exact Fy|eapply IH; exact H]).
+      intros H; inversion H; subst. eapply frame_trans; [exact Fy|]. repeat split. }
+  destruct b; [intros H; inversion H; subst; exact F3|].
+  destruct (s_pushed (session_ x3)); [intros H; inversion H; subst; exact F3|].
+  match goal with |- context [match ?bw with Some _ => _ | None => match pick_node_exit ?A ?X ?R ?N ?P ?I ?T with _ => _ end end] =>
+    destruct bw as [x4|] eqn:Ebw end.
+  - intros H; inversion H; subst. eapply frame_trans; [exact F3|].
+    assert (F4 : frame x3 x4).
+    { destruct (n_router n) as [rt|]; [|discriminate]. destruct (rt_wait rt) as [[[] tmo]|]; try discriminate.
+      dmatch_hyp Ebw; [discriminate|]. inversion Ebw; subst. repeat split. }
+    destruct F4 as (?&?&?). repeat split; simpl; auto.
+  - destruct (pick_node_exit a x3 ri n (length (r_path r0)) false []) as [x5 [e5 op5]| |] eqn:Epk; try discriminate.
+    intros H; inversion H; subst. eapply frame_trans; [exact F3|].
+    destruct (pick_node_exit_shape _ _ _ _ _ _ _ _ _ _ Epk) as [[]|[_ []]]; assumption.
+Qed.
+
+Definition iter_frame (x : st) (r : iter) : Prop :=
+  match r with
+  | ICont x' _ => frame x x'
+  | IStop (ROk x') => frame x x'
+  | IStop _ => True
+  end.
+
+Ltac frame_finish :=
+  try contradiction;
+  repeat match goal with
+         | K : _ \/ _ |- _ => destruct K
+         | K : _ /\ _ |- _ => destruct K
+         | K : same_shape _ _ |- _ => destruct K
+         | K : failed_shape _ _ _ |- _ => destruct K
+         end;
+  subst; unfold iter_frame, frame in *;
+  repeat match goal with K : sess_frame _ _ |- _ => destruct K as (?&?&?) end;
+  try exact I; repeat split; simpl in *; congruence.
+
+Lemma goto_node_frame : forall a x l c d r, goto_node a x l c d = r -> iter_frame x r.
+Proof.
+  intros a x l c d r. unfold goto_node.
+  repeat (first
+    [ match goal with
+      | H : visit_node _ _ _ _ _ = Done _ _ |- _ => apply visit_node_frame in H
+      end
+    | dmatch ]); intros <-; frame_finish.
+Qed.
+
+Lemma finish_run_frame : forall a x l c r, finish_run a x l c = r -> iter_frame x r.
+Proof.
+  intros a x l c r. unfold finish_run.
+  destruct (get_run (session_ x) c) as [r0|] eqn:Er0; [destruct (r_exited r0) eqn:Ex0|];
+  repeat (first
+    [ match goal with
+      | H : find_resume_exit ?a ?X ?pi ?b ?t = _ |- _ =>
+          let K := fresh "K" in pose proof (find_resume_exit_shape a X pi b t) as K; rewrite H in K; clear H
+      end
+    | dmatch ]); intros <-; frame_finish.
+Qed.
+
+Lemma pick_dest_frame : forall a x l x1 l1 dest, pick_dest a x l = (x1, l1, dest) -> frame x x1.
+Proof.
+  intros a x l x1 l1 dest. unfold pick_dest.
+  repeat dmatch; intros H; inversion H; subst; repeat split.
+Qed.
+
+Lemma cuw_iter_frame : forall a x l, iter_frame x (cuw_iter a x l).
+Proof.
+  intros a x l. rewrite cuw_iter_phases.
+  destruct (pick_dest a x l) as [[x1 l1] dest] eqn:Epd.
+  pose proof (pick_dest_frame _ _ _ _ _ _ Epd) as F1.
+  destruct (l_cur l1) as [ci|]; [|exact I].
+  assert (K : forall r, iter_frame x1 r -> iter_frame x r).
+  { intros [[]|] Hr; simpl in *; auto; eapply frame_trans; eauto. }
+  destruct dest as [d|]; apply K.
+  - eapply goto_node_frame; reflexivity.
+  - eapply finish_run_frame; reflexivity.
+Qed.
+
+(* ================================================================================================== *)
+(* Engine calls establish the invariant that holds between calls                                        *)
+(* ================================================================================================== *)
+
+Lemma cuw_post : forall a fuel x l x',
+  loop_inv x l -> continue_until_wait fuel a x l = ROk x' -> post_inv (session_ x') /\ frame x x'.
+Proof.
+  intros a fuel x l x' HI Hr.
+  pose proof (cuw_induct a (fun x1 l1 => loop_inv x1 l1 /\ frame x x1)
+                (fun r => match r with ROk x2 => post_inv (session_ x2) /\ frame x x2 | _ => True end)) as P.
+  specialize (P ltac:(intros x1 l1 x2 l2 [H1 F1] E; pose proof (cuw_iter_inv a x1 l1 H1) as K;
+                      pose proof (cuw_iter_frame a x1 l1) as F; rewrite E in K, F; split; [exact K|eapply frame_trans; eauto])).
+  specialize (P ltac:(intros x1 l1 r [H1 F1] E; pose proof (cuw_iter_inv a x1 l1 H1) as K;
+                      pose proof (cuw_iter_frame a x1 l1) as F; rewrite E in K, F; destruct r; auto;
+                      split; [exact K|eapply frame_trans; eauto])).
+  specialize (P I fuel x l (conj HI (frame_refl x))). rewrite Hr in P. exact P.
+Qed.
+
+Lemma loop_inv_start : forall t f ty,
+  loop_inv {| session_ := set_pushed (set_type (new_session t f) ty) (Some {| p_flow := f; p_terminal := false |});
+              sprint_ := empty_sprint |} (init_lstate true).
+Proof.
+  intros. constructor; simpl.
+  - constructor; intros i z Hi; destruct i; discriminate.
+  - reflexivity.
+  - intros i z Hi; destruct i; discriminate.
+  - unfold cur_ok; simpl. repeat split. discriminate.
+Qed.
+
+(* everything an engine call that returns without error guarantees about the shape of the session *)
+Theorem start_post : forall a t f x',
+  start a t f = ROk x' ->
+  post_inv (session_ x') /\ s_trigger (session_ x') = t /\ s_flow (session_ x') = f.
+Proof.
+  intros a t f x'. unfold start. destruct (get_flow a f) as [fl|]; [|discriminate].
+  intros H. destruct (cuw_post _ _ _ _ _ (loop_inv_start t f (f_type fl)) H) as [P (F1 & F2 & _)].
+  simpl in F1, F2. auto.
+Qed.
+
+Definition closing (z : shp) : shp :=
+  match sh_status z with RActive | RWaiting => z_exit RFailed z | _ => z end.
+
+Lemma shape_fail_session : forall x wi c,
+  shape (session_ (fail_session x wi c)) = map closing (fail_at wi (shape (session_ x))).
+Proof.
+  intros. rewrite <- (shape_fail_run x wi None c). unfold fail_session.
+  unfold with_session at 1; cbn [session_]. rewrite shape_set_status.
+  unfold shape; cbn [s_runs set_runs]. rewrite !map_map.
+  apply map_ext. intros r. unfold closing, shp_of, sh_status; cbn [fst snd].
+  destruct (r_status r) eqn:E; cbn; rewrite ?E; reflexivity.
+Qed.
+
+Lemma fail_session_post : forall x wi c,
+  core_inv (session_ x) -> s_pushed (session_ x) = None -> post_inv (session_ (fail_session x wi c)).
+Proof.
+  intros x wi c [Hwf Hex] Hp. unfold post_inv.
+  assert (Hst : s_status (session_ (fail_session x wi c)) = SFailed) by reflexivity.
+  assert (Hpu : s_pushed (session_ (fail_session x wi c)) = None) by (simpl; exact Hp).
+  rewrite Hst. split; [|split; [exact Hpu|]].
+  - constructor; rewrite shape_fail_session.
+    + apply wf_parents_map; [apply wf_parents_update; auto|]. intros z. unfold closing. destruct (sh_status z); reflexivity.
+    + intros i z Hi. rewrite nth_error_map in Hi.
+      destruct (nth_error (fail_at wi (shape (session_ x))) i) as [z0|] eqn:E; inversion Hi; subst.
+      assert (H0 : sh_exited z0 = is_final (sh_status z0)).
+      { eapply exited_ok_update; [exact Hex| |exact E]. intros; reflexivity. }
+      unfold closing. destruct (sh_status z0) eqn:Es; simpl; auto; rewrite ?Es; auto.
+  - rewrite shape_fail_session. intros i z Hi. rewrite nth_error_map in Hi.
+    destruct (nth_error (fail_at wi (shape (session_ x))) i) as [z0|] eqn:E; inversion Hi; subst.
+    unfold closing. destruct (sh_status z0) eqn:Es; simpl; rewrite ?Es; split; discriminate.
+Qed.
+
+Lemma fail_session_frame : forall x wi c, frame x (fail_session x wi c).
+Proof. intros. repeat split. Qed.
+
+Lemma update_nth_at : forall A (l : list A) i z f g, nth_error l i = Some z -> f z = g z ->
+  update_nth l i f = update_nth l i g.
+Proof. induction l; intros [|i] z f g H E; simpl in *; try discriminate; [inversion H; subst; congruence|f_equal; eauto]. Qed.
+
+Lemma update_nth_none : forall A (l : list A) i f, nth_error l i = None -> update_nth l i f = l.
+Proof. induction l; intros [|i] f H; simpl in *; try discriminate; auto. f_equal; auto. Qed.
+
+Definition activate (z : shp) : shp := match sh_status z with RWaiting => z_status RActive z | _ => z end.
+
+(* baseResume.Apply *)
+Lemma base_apply_shape : forall y wi,
+  shape (session_ (with_session (with_session y (fun s => match run_status s wi with
+                                                           | Some RWaiting => upd_run s wi (run_set_status RActive)
+                                                           | _ => s end)) (fun s => set_input s None)))
+  = update_nth (shape (session_ y)) wi activate.
+Proof.
+  intros y wi. unfold with_session; cbn [session_]. rewrite shape_set_input.
+  rewrite run_status_shape.
+  destruct (nth_error (shape (session_ y)) wi) as [z|] eqn:E; cbn [option_map].
+  - destruct (sh_status z) eqn:Es.
+    2:{ rewrite (shape_upd_run _ wi (run_set_status RActive) (z_status RActive)) by reflexivity.
+        eapply update_nth_at; [exact E|]. unfold activate. rewrite Es. reflexivity. }
+    all: symmetry; rewrite (update_nth_at _ _ _ z activate (fun z => z) E) by (unfold activate; rewrite Es; reflexivity);
+         apply update_nth_id; auto.
+  - symmetry. apply update_nth_none; auto.
+Qed.
+
+(* resume.Apply: the waiting run becomes active, or (run_expiration) expired *)
+Lemma apply_resume_shape : forall x wi sr r,
+  exists g, shape (session_ (apply_resume x wi sr r)) = update_nth (shape (session_ x)) wi g /\
+            (forall z, sh_status z = RWaiting -> (g z = z_status RActive z \/ g z = z_exit RExpired z)) /\
+            s_status (session_ (apply_resume x wi sr r)) = s_status (session_ x) /\
+            s_pushed (session_ (apply_resume x wi sr r)) = s_pushed (session_ x) /\
+            frame x (apply_resume x wi sr r).
+Proof.
+  intros x wi sr r.
+  assert (Hbase : forall y, exists g,
+            shape (session_ (with_session (with_session y (fun s => match run_status s wi with
+                                                                       | Some RWaiting => upd_run s wi (run_set_status RActive)
+                                                                       | _ => s end)) (fun s => set_input s None)))
+              = update_nth (shape (session_ y)) wi g /\
+            (forall z, g z = match sh_status z with RWaiting => z_status RActive z | _ => z end)).
+  { intros y. exists activate. split; [apply base_apply_shape|reflexivity]. }
+  destruct r.
+  - (* msg *)
+    destruct (Hbase x) as (g & Hs & Hg). exists g. unfold apply_resume.
+    rewrite shape_log_event. unfold with_session at 1; cbn [session_]. rewrite shape_set_input.
+    split; [exact Hs|]. split; [intros z Hz; rewrite Hg, Hz; auto|].
+    repeat split; simpl; repeat dmatch; reflexivity.
+  - (* wait timeout *)
+    destruct (Hbase (log_event x wi sr EWaitTimedOut)) as (g & Hs & Hg). exists g. unfold apply_resume.
+    rewrite shape_log_event in Hs. split; [exact Hs|]. split; [intros z Hz; rewrite Hg, Hz; auto|].
+    repeat split; simpl; repeat dmatch; reflexivity.
+  - (* run expiration *)
+    set (y := log_event (with_session x (fun s => upd_run s wi (run_exit RExpired))) wi sr ERunExpired).
+    destruct (Hbase y) as (g & Hs & Hg).
+    exists (fun z => g (z_exit RExpired z)). unfold apply_resume. fold y.
+    split; [|split; [intros z Hz; rewrite Hg; simpl; auto|repeat split; simpl; repeat dmatch; reflexivity]].
+    rewrite Hs. unfold y. rewrite shape_log_event. unfold with_session; cbn [session_].
+    rewrite (shape_upd_run _ wi (run_exit RExpired) (z_exit RExpired)) by reflexivity.
+    generalize (shape (session_ x)). intros sh. revert wi. clear. induction sh as [|z0 sh IH]; intros [|wi]; simpl; auto. f_equal; auto.
+  - (* dial *)
+    destruct (Hbase (log_event x wi sr EDialEnded)) as (g & Hs & Hg). exists g. unfold apply_resume.
+    rewrite shape_log_event in Hs. split; [exact Hs|]. split; [intros z Hz; rewrite Hg, Hz; auto|].
+    repeat split; simpl; repeat dmatch; reflexivity.
 Qed.
